@@ -136,9 +136,10 @@ func init() {
 			}},
 			variant{fam: "digest.GetTree", name: dm.name, applies: always, build: func(fx *fixture, rng *rand.Rand) []*op {
 				d := dm.f(rng, fx.pool.rootDir)
-				return []*op{{ep: "grpc:CAS.GetTree", mustFail: dm.mustFail, class: dm.class(), desc: map[string]any{"root_digest": descDigest(d)},
+				pageSize, pageToken := int32(rng.IntN(3))-1, lib.Pick(rng, []string{"", "x"})
+				return []*op{{ep: "grpc:CAS.GetTree", mustFail: dm.mustFail, class: dm.class(), desc: map[string]any{"root_digest": descDigest(d), "page_size": pageSize, "page_token": pageToken},
 					run: func(ctx context.Context, fx *fixture) result {
-						return grpcRes(drainTree(fx.srv.CAS.GetTree(ctx, &pb.GetTreeRequest{RootDigest: d, PageSize: int32(rng.IntN(3)) - 1, PageToken: lib.Pick(rng, []string{"", "x"})})))
+						return grpcRes(drainTree(fx.srv.CAS.GetTree(ctx, &pb.GetTreeRequest{RootDigest: d, PageSize: pageSize, PageToken: pageToken})))
 					}}}
 			}},
 			variant{fam: "digest.GetActionResult", name: dm.name, applies: always, build: func(fx *fixture, rng *rand.Rand) []*op {
@@ -389,9 +390,10 @@ func init() {
 		register(variant{fam: "payload.UpdateActionResult", name: c.name, applies: always, build: func(fx *fixture, rng *rand.Rand) []*op {
 			ar := c.f(fx, rng)
 			key := freshKey(fx, rng)
-			return []*op{{ep: "grpc:AC.UpdateActionResult", mustFail: c.mf, desc: map[string]any{"case": c.name},
+			inst := lib.Pick(rng, []string{"", "inst", "a/b"})
+			return []*op{{ep: "grpc:AC.UpdateActionResult", mustFail: c.mf, desc: map[string]any{"case": c.name, "instance": inst},
 				run: func(ctx context.Context, fx *fixture) result {
-					_, err := fx.srv.AC.UpdateActionResult(ctx, &pb.UpdateActionResultRequest{ActionDigest: key, ActionResult: ar, InstanceName: lib.Pick(rng, []string{"", "inst", "a/b"})})
+					_, err := fx.srv.AC.UpdateActionResult(ctx, &pb.UpdateActionResultRequest{ActionDigest: key, ActionResult: ar, InstanceName: inst})
 					res := grpcRes(err)
 					if err == nil && strings.HasPrefix(c.name, "enormous") {
 						// read it back through the validating path
